@@ -7,7 +7,7 @@
 (*   mutants   -- per model, for a spread of instances, every JSON and XML mutant of the             *)
 (*                serialization (mutation actions of Sdk.tla applied at every position).             *)
 EXTENDS SdkMut, Json, IOUtils, Randomization
-CONSTANTS RichDepth, BaseDepth, NParam, ParamDepth, MutDepth, MutStar
+CONSTANTS RichModels, RichDepth, BaseDepth, NParam, ParamDepth, MutDepth, MutStar
 Part == atoi(IOEnv.VERIF_PART)      \* the case space is written in NParts slices (parallel TLC runs)
 NParts == atoi(IOEnv.VERIF_NPARTS)
 Mine(i) == i % NParts = Part
@@ -22,8 +22,9 @@ ModelOut(e, i) == [mi |-> i, pa |-> e.pa, pb |-> e.pb, raw |-> Raw(e.m)]
 ModelsOut(es) == T([i \in 1..Len(es) |-> ModelOut(es[i], i)])
 
 InstOut(e, i, xs) == T([q \in 1..Len(xs) |-> [mi |-> i, pa |-> e.pa, pb |-> e.pb, x |-> xs[q], xexp |-> ToX(e.m, xs[q]), xmlok |-> XmlRepresentable(e.m, xs[q])]])
-\* boundary values everywhere down to RichDepth, plain values down to BaseDepth (deeper nesting)
-RootsOf(e) == IF e.fixed THEN Roots(e.m, RichDepth, "rich") \cup Roots(e.m, BaseDepth, "base") ELSE Roots(e.m, ParamDepth, "base")
+\* boundary values everywhere down to RichDepth (models of RichModels), plain values down to BaseDepth (deeper nesting)
+RootsOf(e) == IF ~e.fixed THEN Roots(e.m, ParamDepth, "base")
+              ELSE (IF e.m.id \in RichModels THEN Roots(e.m, RichDepth, "rich") ELSE {}) \cup Roots(e.m, BaseDepth, "base")
 InstancesOut(es) == Flat(T([i \in 1..Len(es) |-> IF Mine(i) THEN InstOut(es[i], i, SetToSeq(RootsOf(es[i]))) ELSE <<>>]))
 
 \* the instances whose serializations are mutated
